@@ -210,6 +210,38 @@ fn f3() {
     report("F3", fails, format!("run2 (E fails) started {:?}; run3 errors {:?}", o2.started, o3.errors));
 }
 
+// ---- F4 (C06/C07): a skipped Output later turned upstream-failed propagates to a started downstream
+fn f4() {
+    let mut w = World::new();
+    w.node("E", JobKind::Ephemeral).node("U", JobKind::Output).node("D", JobKind::Output).node("W", JobKind::Output).node("X", JobKind::Output);
+    w.edge("E", "U").edge("U", "D").edge("E", "W").edge("X", "W");
+    let _ = w.run(&|j| format!("{}-out", j), &[]);
+    w.present.remove("D");
+    w.present.remove("X");
+    let (mut g, present) = w.build();
+    let mut log: Vec<String> = vec![];
+    let mut err: Option<String> = None;
+    if let Err(e) = g.event_startup() { err = Some(format!("{:?}", e)); }
+    if err.is_none() {
+        let ready0: Vec<String> = { let mut r: Vec<String> = g.query_ready_to_run().into_iter().collect(); r.sort(); r };
+        log.push(format!("ready after startup {:?}", ready0));
+        if ready0.contains(&"D".to_string()) && ready0.contains(&"X".to_string()) {
+            let _ = g.event_now_running("D");
+            let _ = g.event_now_running("X");
+            present.borrow_mut().insert("X".into());
+            if let Err(e) = g.event_job_finished_success("X", "X-changed".into()) { err = Some(format!("{:?}", e)); }
+            let ready1: Vec<String> = { let mut r: Vec<String> = g.query_ready_to_run().into_iter().collect(); r.sort(); r };
+            log.push(format!("ready after X changed {:?}", ready1));
+            if err.is_none() && ready1.contains(&"E".to_string()) {
+                let _ = g.event_now_running("E");
+                if let Err(e) = g.event_job_finished_failure("E") { err = Some(format!("{:?}", e)); }
+            }
+        }
+    }
+    let fails = err.as_ref().map(|e| e.contains("InternalError")).unwrap_or(false);
+    report("F4", fails, format!("{} ; error: {:?}", log.join("; "), err));
+}
+
 // ---- F5 (C18): records of a renamed multi-output job survive
 fn f5() {
     let mut w = World::new();
@@ -260,6 +292,7 @@ fn main() {
     run("F1", &f1);
     run("F2", &f2);
     run("F3", &f3);
+    run("F4", &f4);
     run("F5", &f5);
     run("F7", &f7);
 }
